@@ -70,10 +70,23 @@ X_CATS = {"jrel": set(XO.JREL_OPS), "jabs": set(XO.JABS_OPS), "const": set(XO.CO
           "local": set(XO.LOCAL_OPS), "free": set(XO.FREE_OPS), "compare": set(XO.COMPARE_OPS)}
 
 
-def base(co, ident, tab, ins, labels, lines, shift, cmp_op):
+def exc_marks(co, side, api):
+    """offsets that carry a label besides the jump targets.  get_instructions() passes no exception table (3.11, 3.12) or labels jump
+    targets only (3.13).  The Bytecode class passes the table: dis 3.11/3.12 mark the handler targets, dis 3.13 also marks the start and
+    end of every protected range (a listing device); xdis marks the handler targets, which is what C04 states."""
+    if api != "Bytecode" or V < (3, 11) or not hasattr(co, "co_exceptiontable"):
+        return []
+    ents = list(dis._parse_exception_table(co))
+    marks = set(e.target for e in ents)
+    if side == "dis" and V >= (3, 13):
+        marks |= set(e.start for e in ents) | set(e.end for e in ents)
+    return sorted(marks)
+
+
+def base(co, ident, tab, ins, labels, lines, shift, cmp_op, exc=()):
     # CACHE units: dis < 3.13 lists them only with show_caches; give both sides the same view (no caches listed => the
     # judge would lose step, so the recorder asks for them)
-    return {"id": ident, "tab": tab, "wf": 1, "code": tobytes(co.co_code), "ins": ins, "labels": [int(x) for x in labels], "exc": [],
+    return {"id": ident, "tab": tab, "wf": 1, "code": tobytes(co.co_code), "ins": ins, "labels": [int(x) for x in labels], "exc": list(exc),
             "lines": sorted([int(a), int(b)] for a, b in lines if b is not None),
             "names": [sname(x) for x in co.co_names], "varnames": [sname(x) for x in co.co_varnames],
             "cellvars": [sname(x) for x in co.co_cellvars], "freevars": [sname(x) for x in co.co_freevars],
@@ -110,23 +123,29 @@ def main():
                 has_code = hasattr(co, "co_code")
                 fl = None if fl_name == "none" else (0 if fl_name == "zero" else (1 if fl_name == "one" else (co.co_firstlineno + 1000 if has_code else 1000)))
                 shift = 0 if (fl is None or not has_code) else fl - co.co_firstlineno
-                ident = "%s:%s:first_line=%s" % (HOST, kind, fl_name)
-                ds, dins = attempt(lambda: list(dis.get_instructions(x, first_line=fl, **kw)))
-                xs, xins = attempt(lambda: list(xstd.get_instructions(x, first_line=fl)))
-                rec = {"id": ident, "kind": kind, "dis_outcome": ds, "xdis_outcome": xs}
-                if ds == "ok" and xs == "ok":
-                    rec["dis"] = base(co, "dis:" + ident, "c" + HOST, conv(dins, "dis", co, DIS_CATS, list(opcode.cmp_op)),
-                                      dis.findlabels(co.co_code), dis.findlinestarts(co), shift, list(opcode.cmp_op))
-                    rec["xdis"] = base(co, "xdis:" + ident, "x" + HOST, conv(xins, "xdis", co, X_CATS, list(XO.cmp_op)),
-                                       xstd.findlabels(co.co_code), xstd.findlinestarts(co), shift, list(XO.cmp_op))
-                    if fl_name == "none":
-                        # the line table itself, for the line-table judge (LineTablesTrace.tla)
-                        from proj import fmt_of, nn
-                        tab = list(bytearray(co.co_linetable if V >= (3, 10) else co.co_lnotab))
-                        rec["lt"] = {"id": "xdis:" + ident, "fmt": fmt_of(V), "first": co.co_firstlineno, "tab": tab, "clen": len(co.co_code),
-                                     "starts": [[int(a), nn(b)] for a, b in xstd.findlinestarts(co)], "o2l": [], "ranges": [], "ulines": [], "upos": [],
-                                     "sl": [], "ioffs": [], "has": ["starts"]}
-                fh.write(json.dumps(rec) + "\n")
+                for api in ("get_instructions", "Bytecode"):
+                    ident = "%s:%s:first_line=%s%s" % (HOST, kind, fl_name, "" if api == "get_instructions" else ":Bytecode")
+                    if api == "get_instructions":
+                        ds, dins = attempt(lambda: list(dis.get_instructions(x, first_line=fl, **kw)))
+                        xs, xins = attempt(lambda: list(xstd.get_instructions(x, first_line=fl)))
+                    else:
+                        # the class entry point has its own first_line plumbing; findlabels/findlinestarts are asked after the walk
+                        ds, dins = attempt(lambda: list(dis.Bytecode(x, first_line=fl, **kw)))
+                        xs, xins = attempt(lambda: list(xstd.Bytecode(x, first_line=fl)))
+                    rec = {"id": ident, "kind": kind, "dis_outcome": ds, "xdis_outcome": xs}
+                    if ds == "ok" and xs == "ok":
+                        rec["dis"] = base(co, "dis:" + ident, "c" + HOST, conv(dins, "dis", co, DIS_CATS, list(opcode.cmp_op)),
+                                          dis.findlabels(co.co_code), dis.findlinestarts(co), shift, list(opcode.cmp_op), exc_marks(co, "dis", api))
+                        rec["xdis"] = base(co, "xdis:" + ident, "x" + HOST, conv(xins, "xdis", co, X_CATS, list(XO.cmp_op)),
+                                           xstd.findlabels(co.co_code), xstd.findlinestarts(co), shift, list(XO.cmp_op), exc_marks(co, "xdis", api))
+                        if fl_name == "none" and api == "get_instructions":
+                            # the line table itself, for the line-table judge (LineTablesTrace.tla)
+                            from proj import fmt_of, nn
+                            tab = list(bytearray(co.co_linetable if V >= (3, 10) else co.co_lnotab))
+                            rec["lt"] = {"id": "xdis:" + ident, "fmt": fmt_of(V), "first": co.co_firstlineno, "tab": tab, "clen": len(co.co_code),
+                                         "starts": [[int(a), nn(b)] for a, b in xstd.findlinestarts(co)], "o2l": [], "ranges": [], "ulines": [], "upos": [],
+                                         "sl": [], "ioffs": [], "has": ["starts"]}
+                    fh.write(json.dumps(rec) + "\n")
         # module-level tables
         tabs = {}
         for name in ("opmap", "opname", "hasconst", "hasname", "hasjrel", "hasjabs", "haslocal", "hasfree", "hascompare", "HAVE_ARGUMENT", "EXTENDED_ARG", "cmp_op"):
